@@ -225,7 +225,8 @@ def load_known_findings():
 
 def known_finding(pid, key):
     for f in load_known_findings():
-        if f['kind'] == 'finding' and f['property'] == pid and f['key'] == key:
+        if f['kind'] == 'finding' and f['property'] == pid and f['key'] and \
+                (f['key'] == key or (f['key'].endswith('*') and key.startswith(f['key'][:-1]))):
             return f
     return None
 
